@@ -165,19 +165,21 @@ macro_rules! c18_rr {
             let (x, y) = (q.x - tl.x, q.y - tl.y);
             let (w, h) = (w as i32, h as i32);
             let inside_rect = in_rect(&r, q);
-            let want = if !inside_rect {
-                false
-            } else if x < cr.top_left.width as i32 && y < cr.top_left.height as i32 {
-                Ellipse::new(tl, cr.top_left * 2).contains(q)
-            } else if x >= w - cr.top_right.width as i32 && y < cr.top_right.height as i32 {
-                Ellipse::new(tl + Point::new(w - 2 * cr.top_right.width as i32, 0), cr.top_right * 2).contains(q)
-            } else if x < cr.bottom_left.width as i32 && y >= h - cr.bottom_left.height as i32 {
-                Ellipse::new(tl + Point::new(0, h - 2 * cr.bottom_left.height as i32), cr.bottom_left * 2).contains(q)
-            } else if x >= w - cr.bottom_right.width as i32 && y >= h - cr.bottom_right.height as i32 {
-                Ellipse::new(tl + Point::new(w - 2 * cr.bottom_right.width as i32, h - 2 * cr.bottom_right.height as i32), cr.bottom_right * 2).contains(q)
-            } else {
-                true
-            };
+            // inside the rectangle and inside the ellipse of every corner whose box contains the point
+            // (boxes of diagonally opposite corners may overlap)
+            let mut want = inside_rect;
+            if x < cr.top_left.width as i32 && y < cr.top_left.height as i32 {
+                want &= Ellipse::new(tl, cr.top_left * 2).contains(q);
+            }
+            if x >= w - cr.top_right.width as i32 && y < cr.top_right.height as i32 {
+                want &= Ellipse::new(tl + Point::new(w - 2 * cr.top_right.width as i32, 0), cr.top_right * 2).contains(q);
+            }
+            if x < cr.bottom_left.width as i32 && y >= h - cr.bottom_left.height as i32 {
+                want &= Ellipse::new(tl + Point::new(0, h - 2 * cr.bottom_left.height as i32), cr.bottom_left * 2).contains(q);
+            }
+            if x >= w - cr.bottom_right.width as i32 && y >= h - cr.bottom_right.height as i32 {
+                want &= Ellipse::new(tl + Point::new(w - 2 * cr.bottom_right.width as i32, h - 2 * cr.bottom_right.height as i32), cr.bottom_right * 2).contains(q);
+            }
             check!(got == want, "C18.rr_corner_is_ellipse_quadrant");
             reach!(inside_rect && !got, "reach.corner_cut");
             reach!(got && x >= w - cr.bottom_right.width as i32 && y >= h - cr.bottom_right.height as i32 && cr.bottom_right.width > 1, "reach.in_bottom_right_corner");
